@@ -55,7 +55,7 @@ func opKeyUse(a []string) string {
 	}
 	var sb strings.Builder
 	sb.WriteString("dec=ok " + dumpKey(&k))
-	if acceptedWithTaggedLabel("key", data) {
+	if strippedTagWhereChecked("key", data) {
 		sb.WriteString(" TAGGED-LABEL")
 	}
 	before := dumpKey(&k)
@@ -361,6 +361,14 @@ func (foreignSigner) Sign(io.Reader, []byte, crypto.SignerOpts) ([]byte, error) 
 	return nil, errSigner
 }
 
+// badPubSigner: an opaque key that reports a malformed public half
+type badPubSigner struct {
+	crypto.Signer
+	pub crypto.PublicKey
+}
+
+func (b badPubSigner) Public() crypto.PublicKey { return b.pub }
+
 // wrapped hides the concrete private key type behind crypto.Signer
 type wrapped struct{ crypto.Signer }
 
@@ -389,6 +397,22 @@ func keyByKind(kind string) (crypto.Signer, crypto.PublicKey) {
 		seed := sha256.Sum256([]byte("verif-ed"))
 		k := ed25519.NewKeyFromSeed(seed[:])
 		return k, k.Public()
+	case "edp32", "edp48", "edp63", "edp65", "edp96": // an ed25519.PrivateKey value of the wrong length
+		n, _ := strconv.Atoi(kind[3:])
+		seed := sha256.Sum256([]byte("verif-ed"))
+		k := ed25519.NewKeyFromSeed(seed[:])
+		raw := append([]byte{}, k...)
+		for len(raw) < n {
+			raw = append(raw, 7)
+		}
+		return ed25519.PrivateKey(raw[:n]), k.Public()
+	case "edw31", "edw33": // an opaque Ed25519 key whose Public() is of the wrong length
+		n, _ := strconv.Atoi(kind[3:])
+		seed := sha256.Sum256([]byte("verif-ed"))
+		k := ed25519.NewKeyFromSeed(seed[:])
+		pub := append([]byte{}, k.Public().(ed25519.PublicKey)...)
+		pub = append(pub, 7)
+		return badPubSigner{k, ed25519.PublicKey(pub[:n])}, ed25519.PublicKey(pub[:n])
 	case "ed31", "ed33", "ed0": // an ed25519.PublicKey value of the wrong length
 		n, _ := strconv.Atoi(kind[2:])
 		seed := sha256.Sum256([]byte("verif-ed"))
@@ -506,6 +530,7 @@ func opHist(a []string) string {
 		sg cose.Signature
 		ph cose.ProtectedHeader
 		uh cose.UnprotectedHeader
+		hd cose.Headers
 	}
 	var v [2]dst
 	outs := []string{}
@@ -518,7 +543,17 @@ func opHist(a []string) string {
 				break
 			}
 			d := &v[w]
-			buf := unhex(st)
+			var buf, bufU []byte
+			if kind == "hdrs" {
+				// a step is PROTECTED~UNPROTECTED: the two raw buckets handed to Headers.UnmarshalFromRaw
+				pu := strings.SplitN(st, "~", 2)
+				if len(pu) != 2 {
+					return "harness-error hist hdrs step"
+				}
+				buf, bufU = unhex(pu[0]), unhex(pu[1])
+			} else {
+				buf = unhex(st)
+			}
 			var err error
 			var dump func() string
 			var enc func() ([]byte, error)
@@ -533,6 +568,8 @@ func opHist(a []string) string {
 				dump = func() string { return dumpOptMap(d.ph) }
 			case "uh":
 				dump = func() string { return dumpOptMap(d.uh) }
+			case "hdrs":
+				dump = func() string { return dumpHeaders(&d.hd) }
 			default:
 				return "harness-error hist kind"
 			}
@@ -550,6 +587,7 @@ func opHist(a []string) string {
 				}
 				dirtyHeaders(&d.sg.Headers)
 				scribble(d.sg.Signature)
+				dirtyHeaders(&d.hd)
 				if d.ph != nil {
 					for _, x := range d.ph {
 						dirtyValue(x)
@@ -586,6 +624,24 @@ func opHist(a []string) string {
 			case "uh":
 				err = d.uh.UnmarshalCBOR(buf)
 				enc = d.uh.MarshalCBOR
+			case "hdrs":
+				// the caller sets the raw buckets (its own copies) and takes them back when the
+				// decode fails; what UnmarshalFromRaw itself writes is Protected and Unprotected
+				oldP, oldU := d.hd.RawProtected, d.hd.RawUnprotected
+				d.hd.RawProtected = append([]byte(nil), buf...)
+				d.hd.RawUnprotected = append([]byte(nil), bufU...)
+				err = d.hd.UnmarshalFromRaw()
+				if err != nil {
+					d.hd.RawProtected, d.hd.RawUnprotected = oldP, oldU
+				}
+				enc = func() ([]byte, error) {
+					// both encoded outputs are scribbled on: one here, one by the caller
+					if out, e := d.hd.MarshalProtected(); e == nil {
+						scribble(out)
+					}
+					return d.hd.MarshalUnprotected()
+				}
+				scribble(bufU)
 			}
 			scribble(buf)
 			if w == 0 && !dirty {
